@@ -12,6 +12,8 @@ pub struct StepViolation {
     pub detail: String,
     /// optional canonical shape (e.g. command word + failing call site); default = the history
     pub shape: Option<String>,
+    /// soft = recorded (a known deviation the reference tolerates) but the history is continued
+    pub soft: bool,
 }
 
 pub trait SeqModel: Sync {
@@ -154,6 +156,7 @@ pub fn explore<M: SeqModel>(m: &M, cfg: &SeqConfig) -> SeqResult {
                         transitions.fetch_add(1, Ordering::Relaxed);
                         histories.fetch_add(1, Ordering::Relaxed);
                         let mut dirty = true;
+                        let hard = vs.iter().any(|v| !v.soft);
                         if !vs.is_empty() {
                             let mut h = hist.clone();
                             h.push(l);
@@ -168,7 +171,8 @@ pub fn explore<M: SeqModel>(m: &M, cfg: &SeqConfig) -> SeqResult {
                                     });
                                 }
                             }
-                        } else {
+                        }
+                        if !hard {
                             let k1 = m.key(&w);
                             if k1 == k0 {
                                 dirty = false;
@@ -306,6 +310,7 @@ pub fn explore_all_histories<M: SeqModel>(m: &M, prefix: &[usize], sub: &[usize]
                         let vs = m.step(&mut w, l);
                         transitions.fetch_add(1, Ordering::Relaxed);
                         if !vs.is_empty() {
+                            let hard = vs.iter().any(|v| !v.soft);
                             let h = hist[..=i].to_vec();
                             if seen_viol.lock().unwrap().insert(h.clone()) {
                                 let mut g = violations.lock().unwrap();
@@ -315,7 +320,9 @@ pub fn explore_all_histories<M: SeqModel>(m: &M, prefix: &[usize], sub: &[usize]
                                     }
                                 }
                             }
-                            break;
+                            if hard {
+                                break;
+                            }
                         }
                     }
                     m.drop_world(w);
